@@ -455,7 +455,10 @@ fn shaped_collection(rng: &mut Rng, tier: Tier, which: usize) -> (Vec<Vec<u8>>, 
             let n = rng.range(1, 5);
             (
                 (0..n)
-                    .map(|_| { let l = rng.range(200, 600); gen::rand_string(rng, b"etaoinz", l) })
+                    .map(|_| {
+                        let l = if rng.chance(1, 2) { *rng.pick(&[127usize, 128, 129, 254, 255, 256, 257, 258, 511, 512, 513]) } else { rng.range(200, 600) };
+                        gen::rand_string(rng, b"etaoinz", l)
+                    })
                     .collect(),
                 "200-600 byte patterns",
             )
